@@ -243,6 +243,45 @@ Example C10_history_nonvacuous :
 Proof. exact c10_history_ok. Qed.
 Print Assumptions C10_history_nonvacuous.
 
+(* ---- all histories, UNCONDITIONALLY (supersedes C10_step / C10_transaction_partial / C10_history_partial) ----
+   `traversal_live rv_fixed` is no longer a hypothesis.  theories/TraversalLiveProofs.v proves, from the
+   C14 / C17 / C18 developments under the graph invariant wf:
+     traversal_live_on rv_fixed = breadth/depth-first searches (any conditions, any limit/offset) and
+     path searches (any conditions) started from EXISTING origins / destinations return only existing
+     elements; hence search_live rv_fixed (every id returned by ANY search exists in an Inv state).
+   The hypothesis as it was literally stated above is FALSE (C10_traversal_live_refuted): its path-search
+   clause did not ask the origin to exist, and the raw path_search started at the negated id of a node
+   returns that negated id.  DbImpl resolves every origin through db_id, so the relativised statement is
+   the one that matters; the three `_partial` theorems above were vacuous and are kept for the record.
+   Still restricted here to histories without failing queries; C13_history_atomic (Props/C13.v) removes
+   that restriction. *)
+From Agdb Require Import TraversalLiveProofs DbInvariantProofs.
+
+Theorem C10_traversal_live :
+  traversal_live_on rv_fixed /\ search_live rv_fixed.
+Proof. exact (conj traversal_live_holds search_live_fixed). Qed.
+Print Assumptions C10_traversal_live.
+
+Theorem C10_traversal_live_refuted : ~ traversal_live rv_fixed.
+Proof. exact traversal_live_refuted. Qed.
+Print Assumptions C10_traversal_live_refuted.
+
+Theorem C10_step_inv :
+  forall d q, query_ok q -> Inv d -> Inv (step_db (exec_mut_step rv_fixed d q)).
+Proof. exact step_Inv_fixed. Qed.
+Print Assumptions C10_step_inv.
+
+Theorem C10_transaction :
+  forall d qs acc, Forall query_ok qs -> Inv d ->
+  let d1 := fst (fst (txn_run rv_fixed d qs acc)) in alias_bij d1 /\ alias_nodes d1.
+Proof. intros d qs acc Hq Hd. apply Inv_aliases. now apply transaction_state_Inv_fixed. Qed.
+Print Assumptions C10_transaction.
+
+Theorem C10_history :
+  forall qs, Forall query_ok qs -> all_succeed rv_fixed db_new qs ->
+  alias_bij (exec_all rv_fixed db_new qs) /\ alias_nodes (exec_all rv_fixed db_new qs).
+Proof. exact history_aliases_fixed. Qed.
+Print Assumptions C10_history.
 (* ---- empty aliases through the OTHER alias-inserting queries (fix: b8b5b10) ----
    The property text: "empty aliases ... are rejected without effect".  InsertAliases always checked; InsertNodes
    (aliases of new nodes, insert-or-update of existing nodes by ids) and InsertValues (insert-or-update through an
@@ -294,3 +333,26 @@ Example C10_empty_alias_fixed_example :
   exec rv_fixed db_new q_values_empty = (db_new, QErr ENotAllowed).
 Proof. exact empty_alias_fixed_example. Qed.
 Print Assumptions C10_empty_alias_fixed_example.
+
+(* ---- no alias in the map is ever empty (theories/NoEmptyAliasProofs.v) ----
+   nea d = the empty alias does not resolve.  C10_no_empty_alias_step: every query of every kind executed
+   inside a transaction, whatever its outcome, keeps nea — for every revision with fix_empty_alias on and
+   from ANY state (no invariant needed): InsertAliases, InsertNodes and InsertValues are the only queries
+   that add aliases and all three reject the empty one; removals only remove.
+   C10_history_no_empty_alias: after every history of queries and transactions from the empty database,
+   failing ones included (a rollback restores the alias map of the state before: C13_history_atomic; same
+   two hypotheses item_ok / bounded), the empty alias does not resolve and no element is named "". *)
+From Agdb Require Import HistoryAtomicProofs NoEmptyAliasProofs.
+
+Theorem C10_no_empty_alias_step :
+  forall rv, fix_empty_alias rv = true ->
+  forall d q, imap_value (aliases d) [] = None -> imap_value (aliases (fst (exec_in_txn rv d q))) [] = None.
+Proof. exact exec_in_txn_nea. Qed.
+Print Assumptions C10_no_empty_alias_step.
+
+Theorem C10_history_no_empty_alias :
+  forall its, Forall item_ok its -> bounded rv_fixed db_new its ->
+  let d := run_items rv_fixed db_new its in
+  imap_value (aliases d) [] = None /\ forall id, imap_key (aliases d) id <> Some [].
+Proof. exact history_no_empty_alias_fixed. Qed.
+Print Assumptions C10_history_no_empty_alias.
